@@ -516,8 +516,9 @@ func (w *World) editIdentity(r *Replica, which, n int) error {
 			return &ExecError{"identity-mutate/" + Normalize(err.Error()), err.Error()}
 		}
 		if err := i.Commit(r.Repo); err != nil {
-			if r.Stale && strings.Contains(err.Error(), "lamport clock") {
-				// after a restart with stale clock files a new version would record times below those of the previous
+			if (r.Stale || which != r.Idx || w.ForeignIdEdits > 0) && strings.Contains(err.Error(), "lamport clock") {
+				// after a restart with stale clock files, or when the previous version was written by a replica whose
+				// clocks are ahead of this one's, the new version would record times below those of the previous
 				// version: git-bug refuses to commit it (nothing is stored), which is the documented rule for identities
 				w.Rejected++
 				return nil
